@@ -79,6 +79,11 @@ def _dom_frames(tier, seed):
             for fn in ("eq2gal", "gal2eq", "eq2ec", "ec2eq", "ec2gal", "gal2ec"):
                 add("coords.%s %s" % (fn, t), (lambda a, b, fn=fn: getattr(co, fn)(a, b)), ra, dec)
             add("coords.eq2xyz " + t, lambda a, b: co.eq2xyz(a, b), ra, dec)
+            for un in ("deg", "rad"):
+                for stomp in (False, True):
+                    add("coords.eq2xyz units=%s stomp=%s %s" % (un, stomp, t), (lambda a, b, un=un, stomp=stomp: co.eq2xyz(a, b, units=un, stomp=stomp)), ra, dec)
+                    add("coords.xyz2eq units=%s stomp=%s %s" % (un, stomp, t),
+                        (lambda a, b, un=un, stomp=stomp: co.xyz2eq(np.cos(a), np.sin(a), b * 0, units=un, stomp=stomp)), ra, dec)
             add("coords.eq2sdss " + t, lambda a, b: co.eq2sdss(a, b), ra, dec)
             add("coords.sdss2eq " + t, lambda a, b: co.sdss2eq(np.clip(a, -180, 180) * 0 + 10.0, b * 0 + 5.0), ra, dec)
             add("coords.sphdist deg " + t, lambda a, b: co.sphdist(a, b, a + 1.0, b * 0.5), ra, dec)
@@ -88,12 +93,21 @@ def _dom_frames(tier, seed):
             add("htm.lookup_id " + t, lambda a, b: h.lookup_id(a, b), ra, dec)
             add("htm.match " + t, lambda a, b: h.match(a, b, a + 0.001, b, 0.1), ra, dec)
             add("htm.bincount " + t, lambda a, b: h.bincount(0.01, 1.0, 3, a, b, a + 0.01, b), ra, dec)
+            add("htm.bincount scale " + t, lambda a, b: h.bincount(0.01, 1.0, 3, a, b, a + 0.01, b, scale=np.abs(b) + 1.0), ra, dec)
             add("wcs.image2sky " + t, lambda a, b: w.image2sky(a, b + 100), ra, dec)
             add("wcs.sky2image " + t, lambda a, b: w.sky2image(a * 0 + 150.001, b * 0 + 2.001), ra, dec)
         add("coords.shiftlon " + tag, lambda a: co.shiftlon(a, 90.0), ra)
         add("coords.shiftlon wrap " + tag, lambda a: co.shiftlon(a, wrap=True), ra)
         add("coords.atbound " + tag, None, ra)      # documented in-place helper: not swept
     calls = [c for c in calls if c[1] is not None]
+    # pre-computed ids (documented usage of bincount): the id array is an argument too
+    ids0 = h.lookup_id(ra0, dec0)
+    big_ids = np.zeros(ids0.size * 2, dtype="i8")
+    big_ids[::2] = ids0
+    for tag, ids in (("i8", ids0.copy()), ("strided", big_ids[::2]), (">i8", ids0.astype(">i8")), ("u8", ids0.astype("u8"))):
+        add("htm.bincount htmid2= " + tag, lambda a, b, c: h.bincount(0.01, 1.0, 3, a, b, a, b, htmid2=c), ra0.copy(), dec0.copy(), ids)
+        add("htm.bincount htmid2=, minid= " + tag, lambda a, b, c: h.bincount(0.01, 1.0, 3, a, b, a, b, htmid2=c, minid=int(ids0.min()), maxid=int(ids0.max())),
+            ra0.copy(), dec0.copy(), ids)
     for tag, z in _variants(np, z0):
         for fn in ("Dc", "Dm", "Da", "Dl", "sigmacritinv"):
             add("cosmo.%s array-scalar %s" % (fn, tag), (lambda a, fn=fn: getattr(cosmo, fn)(a * 0.1, 3.0)), z)
@@ -132,7 +146,8 @@ def _dom_frames(tier, seed):
         d["b"] = np.arange(6) + 0.5
         d["s"] = b"ab"
         d["v"] = np.arange(12).reshape(6, 2)
-        structs += [("1d" + order, d), ("strided" + order, d[::2]), ("2d" + order, d.reshape(3, 2)), ("0d" + order, d[1:2].reshape(())[...])]
+        structs += [("1d" + order, d), ("strided" + order, d[::2]), ("slice" + order, d.copy()[1:5]), ("2d" + order, d.reshape(3, 2)),
+                    ("0d" + order, d[1:2].reshape(())[...])]
     k = 0
     for tag, d in structs:
         add("extract_fields " + tag, lambda a: nu.extract_fields(a, ["b", "a"]), d)
